@@ -130,7 +130,8 @@ def run(ctx):
         return '%s %s st=%s' % (t[1], t[2], fi.get('st', fi.get('_')))
 
     lib.standard_stream(ctx, gen='c15gen', driver='drv_c15', gen_args=['-seed', str(ctx.seed), '-n', str(n), '-tier', ctx.tier],
-                        compare_keys=['purls', 'extra'], nontrivial=nontrivial, oracle=oracle, classify=classify, finding_class=finding_class)
+                        compare_keys=['purls', 'extra'], nontrivial=nontrivial, oracle=oracle, classify=classify, finding_class=finding_class,
+                        strict_known=False)  # the model does not mirror the two recorded codec defects (it answers as the Spec does), so the class is excused on the implementation's status
     ctx.extra['purl_types_seen'] = dict(sorted(types.items()))
     ctx.extra['explanation'] = ('KNOWN-FINDING lines: every spdx23-tag-value case fails at the reader (PackageSupplier: NOASSERTION: NOASSERTION), and spdx23-yaml cases whose exported '
                                 'strings contain DEL/C1/non-characters fail at the writer; all other cases of the five formats are checked strictly.')
